@@ -191,6 +191,65 @@ fn big_cases(st: &mut Stats, seed: u64) -> Vec<String> {
     d
 }
 
+/// impl -> spec (spec/trace/TraceGroup.tla): random groups far beyond TLC's universe are built by insertion and combined by the crate; every
+/// reply and every view is RECORDED (nothing is judged here) and TLC replays the events on the group machine of spec/HpoGroupSpec.tla.
+///   Start | Ins id new | View iter len | Ops a b union inter x plus bitor_id
+pub fn record(args: &Args) {
+    use std::io::Write;
+    silence_panics();
+    let seed = args.num("seed", 1);
+    let runs = args.num("runs", 60);
+    let path = args.req("trace").to_string();
+    let mut fh = std::fs::File::create(&path).expect("cannot create trace file");
+    let mut st = Stats::default();
+    let mut rng = Rng::new(seed ^ 0x7C12);
+    let sizes = [0usize, 1, 2, 3, 15, 29, 30, 31, 32, 33, 48, 64, 100, 200];
+    let mut n_events = 0u64;
+    let mut index = vec![];
+    for run in 0..runs {
+        let first = n_events + 1;
+        let na = sizes[rng.below(sizes.len() as u64) as usize];
+        let nb = sizes[rng.below(sizes.len() as u64) as usize];
+        let span = [40u64, 200, 2000, 9_999_999][rng.below(4) as usize].max((na + nb) as u64 * 2);
+        let base = rng.below(1000) as u32;
+        let mut draw = |rng: &mut Rng, n: usize| -> Vec<u32> { (0..n).map(|_| base + rng.below(span) as u32).collect() };       // duplicates welcome
+        let a = draw(&mut rng, na);
+        let b: Vec<u32> = match run % 5 {
+            0 => a.iter().copied().filter(|_| rng.chance(1, 2)).collect(),
+            1 => { let m = a.iter().copied().max().unwrap_or(base); (0..nb as u32).map(|k| m + k).collect() }
+            2 => a.clone(),
+            _ => draw(&mut rng, nb),
+        };
+        let res = catch(|| {
+            let mut ev: Vec<Value> = vec![json!({"e": "Start", "run": run})];
+            let mut g = HpoGroup::new();
+            for x in &a {
+                let new = g.insert(*x);
+                ev.push(json!({"e": "Ins", "id": x, "new": new}));
+            }
+            ev.push(json!({"e": "View", "iter": ids(&g), "len": g.len(), "empty": g.is_empty()}));
+            let gb = mk(&b);
+            let x = if rng.chance(1, 2) && !a.is_empty() { *rng.pick(&a) } else { base + rng.below(span) as u32 };
+            ev.push(json!({"e": "Ops", "a": ids(&g), "b": ids(&gb), "union": ids(&(&g | &gb)), "inter": ids(&(&g & &gb)), "x": x,
+                           "plus": ids(&(&g + HpoTermId::from(x))), "bitor_id": ids(&(&g | HpoTermId::from(x)))}));
+            ev
+        });
+        st.cases += 1;
+        st.nontrivial += 1;
+        st.evaluations += 1;
+        let ev = match res {
+            Ok(ev) => ev,
+            Err(p) => vec![json!({"e": "Start", "run": run}), json!({"e": "Panicked", "error": p, "a": a, "b": b})],
+        };
+        for e in &ev {
+            writeln!(fh, "{}", serde_json::to_string(e).unwrap()).unwrap();
+            n_events += 1;
+        }
+        index.push(json!({"run": run, "first_line": first, "last_line": n_events, "a": a.len(), "b": b.len()}));
+    }
+    finish(st, args.req("out"), args.req("replay-dir"), json!({"file": path, "events": n_events, "runs": index}));
+}
+
 pub fn run(args: &Args) {
     silence_panics();
     let Some(shard) = shard_or_spawn("replay-group", args) else { return };
